@@ -453,6 +453,91 @@ func c16(c *Ctx) {
 				"the delegate is published to lock-free readers before the placeholders have theirs ("+early+"): a concurrent call that takes the fast path hands a not yet delegated instrument or callback to the SDK, which rejects or loses it")
 		}
 	}()
+	// R5 no panic while installing: atomic.Value.Store(nil) panics, and it panics inside the once-only installation
+	c.Rule("R5", "E3 dominance (nil-guard)", "every value stored into an atomic.Value of the global package that comes from a call which also returns an error (the delegate's constructor) is stored only after that error was found nil or the value found non-nil: Store(nil) panics inside the sync.Once of Set*Provider, which leaves every later placeholder unconnected for good", 14)
+	{
+		nStores := 0
+		for _, f := range sortedFuncs(gx.Funcs) {
+			if f.Body() == nil {
+				continue
+			}
+			for _, lf := range append([]*FuncInfo{f}, litsOf(gx, f)...) {
+				g := gx.FG(lf)
+				for _, x := range g.Nodes {
+					if x.N == nil {
+						continue
+					}
+					var store *ast.CallExpr
+					inspectNoLit(x.N, func(n ast.Node) bool {
+						if call, ok := n.(*ast.CallExpr); ok && isCallTo(info, call, "(*sync/atomic.Value).Store") && len(call.Args) == 1 {
+							store = call
+						}
+						return true
+					})
+					if store == nil {
+						continue
+					}
+					v := objOf(info, store.Args[0])
+					if v == nil {
+						continue
+					}
+					if _, isIface := v.Type().Underlying().(*types.Interface); !isIface {
+						continue
+					}
+					// defined together with an error by one call?
+					var errObj types.Object
+					inspectNoLit(lf.Body(), func(n ast.Node) bool {
+						as, ok := n.(*ast.AssignStmt)
+						if !ok || len(as.Rhs) != 1 || len(as.Lhs) != 2 {
+							return true
+						}
+						if _, isCall := unparen(as.Rhs[0]).(*ast.CallExpr); !isCall {
+							return true
+						}
+						if objOf(info, as.Lhs[0]) == v && isErrVar(info, as.Lhs[1]) {
+							errObj = objOf(info, as.Lhs[1])
+						}
+						return true
+					})
+					isParam := false
+					if errObj == nil {
+						// a helper that receives the value and the error as parameters
+						var errParam types.Object
+						for _, p := range lf.ParamObjs(info) {
+							if p == v {
+								isParam = true
+							}
+							if pv, ok := p.(*types.Var); ok && types.Identical(pv.Type(), types.Universe.Lookup("error").Type()) {
+								errParam = p
+							}
+						}
+						if !isParam || errParam == nil {
+							continue
+						}
+						errObj = errParam
+					}
+					nStores++
+					ok, why := g.DominatedByEdges(x, func(e *GEdge) bool {
+						return edgeImplies(e, func(cnd ast.Expr, pol int) bool {
+							if nn, good := nilCmp(info, cnd, pol, func(z ast.Expr) bool { return sameVar(info, z, errObj) }); good && !nn {
+								return true // err == nil
+							}
+							if nn, good := nilCmp(info, cnd, pol, func(z ast.Expr) bool { return sameVar(info, z, v) }); good && nn {
+								return true // value != nil
+							}
+							return false
+						})
+					})
+					c.Check(ok, "R5", "global|"+gx.Outer(lf).Name+"|Store("+exprStr(store.Args[0])+") only after the error was found nil", at(gx.M, store.Pos()), "guarded by the constructor's error",
+						"a delegate that fails with (nil, err) makes atomic.Value.Store(nil) panic out of Set*Provider: the Once is consumed, the provider is not installed and the remaining placeholders are never connected: "+why)
+				}
+			}
+		}
+		if nStores == 0 {
+			c.Violation("R5", "global|atomic.Value stores|sites", at(gx.M, gx.Pkg.Syntax[0].Pos()), "no store of a constructor result into an atomic.Value found: the analysis no longer sees the setDelegate methods it was built on")
+		}
+	}
+
 	c.Rule("R4", "E3 total fan-out + ordering", "setDelegate visits every placeholder/registration and then clears the collections; Set*Provider: setDelegate only inside the sync.Once, global Store after it; registration.setDelegate skips unregistered callbacks", 8)
 	for _, sp := range []struct{ fn, target string }{
 		{"(*meterProvider).setDelegate", "(*meter).setDelegate"}, {"(*tracerProvider).setDelegate", "(*tracer).setDelegate"},
@@ -510,6 +595,11 @@ func c16(c *Ctx) {
 				}
 				c.Check(okHeld && rel == nil, "R4", key, at(gx.M, fn.Pos()), "mtx held throughout",
 					"the provider's mutex is not held (or is released) between publishing the delegate, walking the placeholders and clearing them: a Tracer()/Meter() call in the gap creates a placeholder that is never connected")
+				// the caller runs setDelegate inside the once-only installation: it installs on every path (a setDelegate that can
+				// decline consumes the Once and leaves every placeholder unconnected for good)
+				seenNoStore, par := g.ReachFromEntry(func(y *GNode) bool { return y == store }, nil)
+				c.Check(!seenNoStore[g.Exit], "R4", "global|"+sp.fn+"|the delegate is stored on every path (the call happens once)", at(gx.M, store.N.Pos()), "no path through setDelegate skips the store",
+					"setDelegate can return without installing the delegate ("+g.pathLines(par, g.Exit)+") although its caller has consumed the sync.Once for it: a later installation of a real SDK connects nothing")
 			}
 		}
 	}
@@ -670,6 +760,17 @@ func unregMarkers(gx *PkgIndex) map[*types.Var]bool {
 			for _, fv := range set {
 				out[fv] = true
 			}
+		}
+	}
+	return out
+}
+
+// litsOf: the function literals nested (at any depth) in f.
+func litsOf(ix *PkgIndex, f *FuncInfo) []*FuncInfo {
+	var out []*FuncInfo
+	for _, g := range ix.All {
+		if g.Lit != nil && g != f && ix.Outer(g) == f {
+			out = append(out, g)
 		}
 	}
 	return out
